@@ -26,6 +26,14 @@ CurT == b.templs[b.curT]
 
 Param == /\ phase \in {"top", "sys"} /\ Room /\ Len(b.params) < 1
          /\ Do(Ev("decl_parameter", IF phase = "top" THEN "p" ELSE "q", "", 0)) /\ UNCHANGED <<phase, narg>>
+(* a function declared globally (phase top) or among a template's local declarations (before its first location): it consumes the
+   pending parameter frame and its name can clash with templates, locations, parameters *)
+FNames == {"T", "A", "f"}
+NFun == Cardinality({q \in 1..Len(hist) : hist[q].cb = "decl_func_begin"})
+Func == /\ phase \in {"top", "locs"} /\ Room /\ NFun < 1 /\ (phase = "locs" => CurT.locs = <<>> /\ CurT.bps = <<>>)
+        /\ \E n \in FNames : b' = Apply(Apply(b, Ev("decl_func_begin", n, "", 0)), Ev("decl_func_end", "", "", 0))
+                              /\ hist' = hist \o <<Ev("decl_func_begin", n, "", 0), Ev("decl_func_end", "", "", 0)>>
+        /\ UNCHANGED <<phase, narg>>
 Begin == /\ phase = "top" /\ Room /\ Len(b.templs) < MaxT
          /\ \E n \in TNames : Do(Ev("proc_begin", n, "", 0)) /\ phase' = "locs" /\ UNCHANGED narg
 Loc == /\ phase = "locs" /\ Room /\ Len(CurT.locs) < MaxL
@@ -50,7 +58,7 @@ InstEnd == /\ phase = "args"
 Proc == /\ phase = "sys" /\ Room /\ b.params = <<>> /\ Len(b.procs) < MaxP
         /\ \E n \in PNames : Do(Ev("process", n, "", 0)) /\ UNCHANGED <<phase, narg>>
 
-Next == Param \/ Begin \/ Loc \/ Bp \/ InitLoc \/ NoInit \/ EdgeBegin \/ EdgeEnd \/ End \/ Sys \/ InstBegin \/ Arg \/ InstEnd \/ Proc
+Next == Param \/ Func \/ Begin \/ Loc \/ Bp \/ InitLoc \/ NoInit \/ EdgeBegin \/ EdgeEnd \/ End \/ Sys \/ InstBegin \/ Arg \/ InstEnd \/ Proc
 Spec == Init /\ [][Next]_vars
 
 Inv == DocInv(b) /\ Balanced(b)
